@@ -23,7 +23,7 @@ func init() {
 	})
 	register(&explore.Prop{
 		ID: "C16", Level: levelMC, Explorer: "E1 input-space enumerator",
-		Rule: "built, persisted+loaded, merged and merged-again segments of the MIX/MERGE scopes with field length == sum of term frequencies; CollectionStats of every field (and an unknown one) compared with the reference model's two definitions (built: docs carrying the field / sum of lengths; merged: survivors with >=1 term / sum of freq); CollectionStats.Merge checked on every ordered pair of a measured value set (<=40 values, incl. known-but-empty fields); " +
+		Rule: "built, persisted+loaded, merged and merged-again segments of the MIX/MERGE scopes (and MERGE-EXTREME: frequencies up to 2^40) with field length == sum of term frequencies; CollectionStats of every field (and an unknown one) compared with the reference model's two definitions (built: docs carrying the field / sum of lengths; merged: survivors with >=1 term / sum of freq); CollectionStats.Merge checked on every ordered pair of a measured value set (<=40 values, incl. known-but-empty fields); " +
 			"distinct = distinct case; non-trivial = some term has freq>=2 or occurs in >=2 segments or a document is dropped",
 		Assumptions: commonAssumptions, Budget: qBudget, Run: runC16,
 	})
@@ -334,6 +334,7 @@ func runC16(c *explore.Ctx) {
 	} else {
 		mergeSweep(c, 2, 6, 2, cfgs, check)
 	}
+	extremeMergesOpt(c, check, true) // sums of huge frequencies
 	// CollectionStats.Merge adds component-wise
 	if c.Shard == 0 || c.Replay {
 		statsMergeCheck(c)
